@@ -17,4 +17,12 @@ fn main() {
     if has {
         println!("cargo:rustc-cfg=has_key_hook");
     }
+    // `has_cow_hook` ⇔ metrics/src/cow.rs reports `Cow::clone` to the same hook (yield points inside `Key::clone`,
+    // C03's clone-vs-first-get_hash schedules)
+    let cow_rs = format!("{}/src/cow.rs", path);
+    println!("cargo:rerun-if-changed={}", cow_rs);
+    let has_cow = std::fs::read_to_string(&cow_rs).map(|s| s.contains("verif_key_hook::point(\"cow-clone\")")).unwrap_or(false);
+    if has && has_cow {
+        println!("cargo:rustc-cfg=has_cow_hook");
+    }
 }
